@@ -440,6 +440,23 @@ class ExprMixin:
             else:
                 yield "ok", ("list", tuple(ts)), s
 
+    def e_Slice(self, n, st, fx):
+        parts = [n.lower, n.upper, n.step]
+
+        def go(i, acc, s1):
+            if i == 3:
+                yield "ok", ("slicekey", acc[0], acc[1], acc[2]), s1
+                return
+            if parts[i] is None:
+                yield from go(i + 1, acc + [NONE], s1)
+                return
+            for r2, t2, s2 in self.ev(parts[i], s1, fx):
+                if r2 == "raise":
+                    yield r2, t2, s2
+                else:
+                    yield from go(i + 1, acc + [t2], s2)
+        yield from go(0, [], st)
+
     def e_Set(self, n, st, fx):
         for r, ts, s in self.ev_list(n.elts, st, fx):
             if r == "raise":
